@@ -5,6 +5,8 @@ CONSTANTS
   Values <- MCValues
   KindOf <- MCKindOf
   HSlots = {"s1"}
+  Doors = {}
+  BDValues = {}
   Depth = 4
   Emit = TRUE
   CrossKind = TRUE
